@@ -6,7 +6,7 @@ set -e
 n="$1"; props="$2"; shift 2
 cd /verif
 git add -A; git commit -qm "wip before merging $n" || true
-git merge -q wp-$n -m "Merge $n" 
+git merge -q wp-$n -m "Merge $n" || { git checkout --theirs evidence/ 2>/dev/null; git add -A; git commit -qm "Merge $n (evidence conflicts resolved towards the branch; regenerated below)"; }
 map=""
 for c in "$@"; do
   git -C /repo cherry-pick $c >/dev/null
